@@ -1978,44 +1978,44 @@ class VM:
 
         def split(*args):
             sep = args[0] if args else UNDEFINED
-            limit = to_integer(args[1]) if len(args) > 1 else -1
+            limit = (
+                to_integer(args[1]) % 2**32
+                if len(args) > 1 and args[1] is not UNDEFINED
+                else -1
+            )
 
             if sep is UNDEFINED:
                 parts = [s]
             elif isinstance(sep, JSRegExp):
-                # Split with regex using microjs.regex
+                # Split with regex (RegExp.prototype[@@split]): try to match at every
+                # position; an empty match at the end of the previous piece is skipped
                 try:
                     regex_internal = sep._internal
-                    parts = []
-                    last_end = 0
-                    pos = 0
                     capture_count = regex_internal._capture_count
-
-                    while pos <= len(s):
-                        # Create fresh regex VM for each search to avoid lastIndex issues
-                        vm_regex = regex_internal._create_vm()
-                        result = vm_regex.search(s, pos)
-                        if result is None:
-                            break
-
-                        # Add the part before this match
-                        parts.append(s[last_end : result.index])
-
-                        # Add captured groups (JS behavior) - capture_count includes group 0
-                        for i in range(1, capture_count):
-                            group_val = result[i]
-                            parts.append(
-                                group_val if group_val is not None else UNDEFINED
+                    parts = []
+                    if s == "":
+                        if regex_internal._create_vm().match(s, 0) is None:
+                            parts.append(s)
+                    else:
+                        piece_start = 0
+                        pos = 0
+                        while pos < len(s):
+                            result = regex_internal._create_vm().match(s, pos)
+                            match_end = (
+                                None if result is None else pos + len(result[0] or "")
                             )
-
-                        # Move past the match
-                        match_len = len(result[0]) if result[0] else 0
-                        last_end = result.index + match_len
-                        # Advance position (at least by 1 to avoid infinite loop on zero-width)
-                        pos = last_end if match_len > 0 else result.index + 1
-
-                    # Add remainder after last match
-                    parts.append(s[last_end:])
+                            if result is None or match_end == piece_start:
+                                pos += 1
+                                continue
+                            parts.append(s[piece_start:pos])
+                            for i in range(1, capture_count):
+                                group_val = result[i]
+                                parts.append(
+                                    group_val if group_val is not None else UNDEFINED
+                                )
+                            piece_start = match_end
+                            pos = match_end if match_end > pos else pos + 1
+                        parts.append(s[piece_start:])
                 except RegexTimeoutError:
                     raise TimeLimitError("Regex execution timeout")
             elif to_string(sep) == "":
@@ -2087,9 +2087,68 @@ class VM:
             pos = min(max(pos, 0), len(s))
             return search in s[pos:]
 
+        vm = self
+
         def replace(*args):
-            pattern = args[0] if args else ""
-            replacement = to_string(args[1]) if len(args) > 1 else "undefined"
+            pattern = args[0] if args else UNDEFINED
+            replace_value = args[1] if len(args) > 1 else UNDEFINED
+            replace_fn = (
+                replace_value
+                if isinstance(replace_value, JSFunction)
+                or (callable(replace_value) and not isinstance(replace_value, str))
+                else None
+            )
+            replacement = "" if replace_fn else to_string(replace_value)
+
+            def substitute(matched, position, captures):
+                """The replacement text for one match (GetSubstitution, or the
+                replacer function called with match, captures, position, string)."""
+                if replace_fn is not None:
+                    call_args = [matched] + [
+                        c if c is not None else UNDEFINED for c in captures
+                    ]
+                    return to_string(
+                        vm._call_callback(replace_fn, call_args + [position, s])
+                    )
+                out = []
+                i = 0
+                while i < len(replacement):
+                    ch = replacement[i]
+                    nxt = replacement[i + 1 : i + 2]
+                    if ch != "$" or nxt == "":
+                        out.append(ch)
+                        i += 1
+                    elif nxt == "$":
+                        out.append("$")
+                        i += 2
+                    elif nxt == "&":
+                        out.append(matched)
+                        i += 2
+                    elif nxt == "`":
+                        out.append(s[:position])
+                        i += 2
+                    elif nxt == "'":
+                        out.append(s[position + len(matched) :])
+                        i += 2
+                    elif nxt in "0123456789":
+                        two = replacement[i + 1 : i + 3]
+                        if (
+                            len(two) == 2
+                            and two[1] in "0123456789"
+                            and 1 <= int(two) <= len(captures)
+                        ):
+                            out.append(captures[int(two) - 1] or "")
+                            i += 3
+                        elif 1 <= int(nxt) <= len(captures):
+                            out.append(captures[int(nxt) - 1] or "")
+                            i += 2
+                        else:
+                            out.append(ch)
+                            i += 1
+                    else:
+                        out.append(ch)
+                        i += 1
+                return "".join(out)
 
             if isinstance(pattern, JSRegExp):
                 # Replace with regex using microjs.regex
@@ -2097,23 +2156,8 @@ class VM:
                     regex_internal = pattern._internal
                     is_global = "g" in pattern._flags
                     capture_count = regex_internal._capture_count
-
-                    # Handle special replacement patterns
-                    def handle_replacement(match_result):
-                        result = replacement
-                        # Handle $$ escape first (must be done before other $ patterns)
-                        result = result.replace("$$", "\x00DOLLAR\x00")
-                        # $& - the matched substring
-                        result = result.replace("$&", match_result[0] or "")
-                        # $n - nth captured group
-                        for i in range(1, 10):
-                            if i <= capture_count:
-                                result = result.replace(f"${i}", match_result[i] or "")
-                            else:
-                                result = result.replace(f"${i}", "")
-                        # Restore escaped dollars
-                        result = result.replace("\x00DOLLAR\x00", "$")
-                        return result
+                    if is_global:
+                        pattern.lastIndex = 0
 
                     result_parts = []
                     last_end = 0
@@ -2129,10 +2173,14 @@ class VM:
                         # Add the part before this match
                         result_parts.append(s[last_end : match_result.index])
                         # Add the replacement
-                        result_parts.append(handle_replacement(match_result))
+                        matched = match_result[0] or ""
+                        captures = [match_result[i] for i in range(1, capture_count)]
+                        result_parts.append(
+                            substitute(matched, match_result.index, captures)
+                        )
 
                         # Move past the match
-                        match_len = len(match_result[0]) if match_result[0] else 0
+                        match_len = len(matched)
                         last_end = match_result.index + match_len
                         pos = last_end if match_len > 0 else match_result.index + 1
 
@@ -2147,17 +2195,9 @@ class VM:
             else:
                 # String replace - only replace first occurrence
                 search = to_string(pattern)
-                # Handle special replacement patterns
-                repl = replacement
-                if "$$" in repl:
-                    repl = repl.replace("$$", "\x00DOLLAR\x00")
-                if "$&" in repl:
-                    repl = repl.replace("$&", search)
-                repl = repl.replace("\x00DOLLAR\x00", "$")
-                # Find first occurrence and replace
                 idx = s.find(search)
                 if idx >= 0:
-                    return s[:idx] + repl + s[idx + len(search) :]
+                    return s[:idx] + substitute(search, idx, []) + s[idx + len(search) :]
                 return s
 
         def replaceAll(*args):
@@ -2172,15 +2212,46 @@ class VM:
             else:
                 # String replaceAll - replace all occurrences
                 search = to_string(pattern)
-                # Handle special replacement patterns
-                if "$$" in replacement:
-                    # $$ -> $ (must be done before other replacements)
-                    replacement = replacement.replace("$$", "\x00DOLLAR\x00")
-                if "$&" in replacement:
-                    # $& -> the matched substring
-                    replacement = replacement.replace("$&", search)
-                replacement = replacement.replace("\x00DOLLAR\x00", "$")
-                return s.replace(search, replacement)
+                replace_value = args[1] if len(args) > 1 else UNDEFINED
+                step = max(1, len(search))
+                out = []
+                last_end = 0
+                idx = s.find(search)
+                while idx >= 0:
+                    out.append(s[last_end:idx])
+                    out.append(replace_one(search, idx, replace_value))
+                    last_end = idx + len(search)
+                    idx = s.find(search, idx + step) if idx + step <= len(s) else -1
+                out.append(s[last_end:])
+                return "".join(out)
+
+        def replace_one(search, idx, replace_value):
+            """Substitution for the occurrence of `search` at idx (string patterns)."""
+            if isinstance(replace_value, JSFunction) or (
+                callable(replace_value) and not isinstance(replace_value, str)
+            ):
+                return to_string(vm._call_callback(replace_value, [search, idx, s]))
+            template = to_string(replace_value)
+            out = []
+            i = 0
+            while i < len(template):
+                two = template[i : i + 2]
+                if two == "$$":
+                    out.append("$")
+                    i += 2
+                elif two == "$&":
+                    out.append(search)
+                    i += 2
+                elif two == "$`":
+                    out.append(s[:idx])
+                    i += 2
+                elif two == "$'":
+                    out.append(s[idx + len(search) :])
+                    i += 2
+                else:
+                    out.append(template[i])
+                    i += 1
+            return "".join(out)
 
         def match(*args):
             pattern = args[0] if args else None
@@ -2197,6 +2268,8 @@ class VM:
             if isinstance(pattern, JSRegExp):
                 regex_internal = pattern._internal
                 is_global = "g" in pattern._flags
+                if is_global:
+                    pattern.lastIndex = 0
             else:
                 # Convert string to regex using microjs.regex
                 # Create a poll_callback if the VM has time limits
